@@ -21,10 +21,10 @@ void h_verify(void) {
     secp256k1_context ctx;
     INPUT_ARR(unsigned char, sig, 64); INPUT(secp256k1_xonly_pubkey, pk);
     INPUT(_Bool, use_sig); INPUT(_Bool, use_pk); INPUT(_Bool, msg_null); INPUT(size_t, msglen);
-    unsigned char *msg; int ret, args_ok, gates; wide r, s, px, py, n = N_(), p = P_();
+    unsigned char *msg, *mbuf; int ret, args_ok, gates; wide r, s, px, py, n = N_(), p = P_();
     __CPROVER_assume(msglen <= 100000);
-    INPUT_BUF(msgw, msg, msglen, 64);
-    if (msg_null) msg = NULL;
+    INPUT_BUF(msgw, mbuf, msglen, 64);
+    msg = msg_null ? NULL : mbuf;
     px = le256(&pk.data[0]); py = le256(&pk.data[32]);
     /* representation invariant of an x-only key object: both stored coordinates are reduced (x = 0 is allowed here: it is the "invalid object" case) */
     __CPROVER_assume(px < p && py < p);
@@ -33,7 +33,7 @@ void h_verify(void) {
     r = be256(&sig[0]); s = be256(&sig[32]);
 
     ret = secp256k1_schnorrsig_verify(&ctx, use_sig ? sig : NULL, msg, msglen, use_pk ? &pk : NULL);
-    WITNESS_BUF(msgw, msg, msglen, 64);
+    WITNESS_BUF(msgw, mbuf, msglen, 64);
 
     __CPROVER_assert(ret == 0 || ret == 1, "C02 verify: returns 0 or 1");
     __CPROVER_assert(g_error == 0, "C02 verify: error callback never invoked");
